@@ -997,7 +997,19 @@ func loopRestartCheck(rep *Report, full bool) error {
 	}
 	stages := []stage{
 		{"fresh chain (default orbiter state)", func() error { return nil }},
-		{"after 40 transfers on all routes", runSteps(0, 40)},
+		{"after 40 transfers on all routes and two denominations on one route", func() error {
+			if err := runSteps(0, 40)(); err != nil {
+				return err
+			}
+			for _, st := range []LoopStep{
+				{Label: "internal uusdc", Base: denomUSDC, Amount: "4300", Receiver: lw.Orb.String(), Memo: Memo(lw.FwdInternal(lw.Bob), nil)},
+				{Label: "internal uother (same route, other denomination)", Base: denomOTH, Amount: "4400", Receiver: lw.Orb.String(), Memo: Memo(lw.FwdInternal(lw.Bob), nil)}} {
+				if _, err := lw.RunStep(st); err != nil {
+					return err
+				}
+			}
+			return nil
+		}},
 		{"after pauses and a parameter change by the authority", func() error {
 			for _, st := range []struct {
 				l string
